@@ -6,12 +6,101 @@ Every unsigned LEB field (section sizes, vector counts, indices, memarg align/of
 counts, body sizes, name lengths, br_table entries, prefixed sub-opcodes) and every signed LEB
 immediate (i32.const s32, i64.const s64) goes through the policy: 'minimal', 'max' (5 bytes for
 32-bit fields, 10 for 64-bit) or 'random' (uniform between minimal and max, from policy.rng).
-Block types (0x40 / value type) and the reserved 0x00 bytes are single bytes and never padded.
+Block types (0x40 / value type) and the reserved 0x00 memory-index bytes (memory.size/grow/fill/copy/init,
+atomic.fence) are single bytes and never padded (V8 rejects `80 00` there); the TABLE index of call_indirect is a
+u32 (`80 00`, or `80 80 80 80 00` as LLVM emits for relocatable indices) and follows the policy.
+
+The locals vector of a function body has many encodings of the same sequence of locals (vec(locals) denotes the
+concatenation t^n): `Policy(locals=…)` re-groups it — zero-count groups at the beginning / in the middle / at the
+end, groups split, adjacent groups of one type merged (`relocals`).
 """
 import random as _random
 
 from .wasm_ast import (OPS, SECTION_ORDER, KIND_CODE, NameSection, EMPTY_BLOCK, uses_data_index,
                        to_signed)
+
+LOCALS_MODES = ('keep', 'zero_lead', 'zero_mid', 'zero_end', 'zero_all', 'split', 'merge', 'random')
+_VT_ORDER = (0x7E, 0x7C, 0x7F, 0x7D)      # i64, f64, i32, f32
+
+
+def _other_type(t):
+    """a value type different from `t` (so that a lookup that returns the empty group's type is visibly wrong)"""
+    for c in _VT_ORDER:
+        if c != t:
+            return c
+
+
+def expand_locals(groups):
+    out = []
+    for n, t in groups:
+        out += [t] * n
+    return out
+
+
+def relocals(groups, mode, rng=None):
+    """Another grouping [(count, valtype)] of the same sequence of locals.
+
+    zero_lead: one or two zero-count groups first;  zero_mid: a zero-count group between any two groups and inside
+    every group of two or more;  zero_end: a zero-count group last;  zero_all: all three;  split: every group of
+    n >= 2 locals becomes (1, n-1);  merge: adjacent groups of one type are merged and zero-count groups dropped (the
+    canonical run-length form);  random: a random mixture (needs rng)."""
+    groups = [(int(n), t) for n, t in groups]
+    if mode == 'keep':
+        return groups
+    if mode == 'merge':
+        out = []
+        for n, t in groups:
+            if n == 0:
+                continue
+            if out and out[-1][1] == t:
+                out[-1] = (out[-1][0] + n, t)
+            else:
+                out.append((n, t))
+        return out
+    if mode == 'split':
+        out = []
+        for n, t in groups:
+            if n >= 2:
+                out += [(1, t), (n - 1, t)]
+            else:
+                out.append((n, t))
+        return out
+    first = groups[0][1] if groups else 0x7F
+    if mode == 'zero_lead':
+        return [(0, _other_type(first)), (0, first)] + groups
+    if mode == 'zero_end':
+        return groups + [(0, _other_type(groups[-1][1] if groups else 0x7F))]
+    if mode == 'zero_mid':
+        out = []
+        for k, (n, t) in enumerate(groups):
+            if k:
+                out.append((0, _other_type(t)))
+            if n >= 2:
+                out += [(n // 2, t), (0, _other_type(t)), (n - n // 2, t)]
+            else:
+                out.append((n, t))
+        return out
+    if mode == 'zero_all':
+        return relocals(relocals(relocals(groups, 'zero_mid'), 'zero_lead'), 'zero_end')
+    if mode == 'random':
+        if rng is None:
+            rng = _random.Random(0)
+        out = []
+        types = expand_locals(groups)
+        for _ in range(rng.choice((0, 0, 1, 2))):
+            out.append((0, rng.choice(_VT_ORDER)))
+        i = 0
+        while i < len(types):
+            j = i
+            while j < len(types) and types[j] == types[i]:
+                j += 1
+            n = rng.randint(1, j - i)
+            out.append((n, types[i]))
+            i += n
+            if rng.random() < 0.25:
+                out.append((0, rng.choice(_VT_ORDER)))
+        return out
+    raise ValueError('unknown locals mode %r' % (mode,))
 
 
 def _max_len(bits):
@@ -80,15 +169,19 @@ class Policy(object):
     emit_empty: emit type/import/.../data sections even when they have 0 entries
     data_flag:  'keep' (segment hint, default 0) | 0 | 2 | 'random'  for active data segments
     datacount:  'auto' (follow module.datacount) | True | False
+    locals:     grouping of the locals vector of every body, one of LOCALS_MODES (see `relocals`)
+    table_index_width: None (follow `leb`) | 1..5: width of the call_indirect table index
     """
 
     def __init__(self, leb='minimal', rng=None, pad_subop=True, emit_empty=False,
-                 data_flag='keep', datacount='auto'):
+                 data_flag='keep', datacount='auto', locals='keep', table_index_width=None):
         assert leb in ('minimal', 'max', 'random')
+        assert locals in LOCALS_MODES
         if leb == 'random' and rng is None:
             rng = _random.Random(0)
         self.leb, self.rng, self.pad_subop = leb, rng, pad_subop
         self.emit_empty, self.data_flag, self.datacount = emit_empty, data_flag, datacount
+        self.locals, self.table_index_width = locals, table_index_width
 
     def _width(self, minimal, bits):
         if self.leb == 'minimal':
@@ -182,7 +275,11 @@ class _Enc(object):
             out += self.vec(i.imm[0], self.u32) + self.u32(i.imm[1])
         elif k == 'call_indirect':
             out += self.u32(i.imm[0])
-            out.append(i.imm[1] if len(i.imm) > 1 else 0)
+            tb = i.imm[1] if len(i.imm) > 1 else 0
+            if self.p.table_index_width is not None:
+                out += leb_u(tb, self.p.table_index_width, 32)
+            else:
+                out += self.u32(tb)
         elif k == 'memarg':
             out += self.u32(i.imm[0]) + self.u32(i.imm[1])
         elif k in ('mem0', 'memory.fill', 'fence'):
@@ -254,7 +351,8 @@ class _Enc(object):
         return b'\x02' + self.u32(d.memory) + self.const_expr(d.offset) + self.u32(len(d.data)) + d.data
 
     def code(self, f):
-        body = self.vec(f.locals, lambda l: self.u32(l[0]) + self.valtype(l[1])) + self.expr(f.body)
+        groups = relocals(f.locals, self.p.locals, self.p.rng)
+        body = self.vec(groups, lambda l: self.u32(l[0]) + self.valtype(l[1])) + self.expr(f.body)
         return self.u32(len(body)) + body
 
     def name_section(self, ns):
